@@ -15,7 +15,7 @@ def corpus_cases(pid):
                 if ln and not ln.startswith('#'): out.append(ln)
     return out
 
-HARNESS_OF_CLASS = {'DJF': 'float', 'WF': 'float', 'CONC': 'conc', 'D': 'classes', 'U': 'classes', 'DM': 'multi', 'UM': 'multi', 'DW': 'multi', 'UW': 'multi'}
+HARNESS_OF_CLASS = {'EQF': 'float', 'DJF': 'float', 'WF': 'float', 'CONC': 'conc', 'D': 'classes', 'U': 'classes', 'DM': 'multi', 'UM': 'multi', 'DW': 'multi', 'UW': 'multi'}
 def default_route(case):
     return HARNESS_OF_CLASS.get(case.split(None, 1)[0])
 
